@@ -55,9 +55,35 @@ def _lit(rng, depth=0):
     return "^{:tag :" + rng.choice(KW_POOL) + "} [" + _lit(rng, depth + 1) + "]"
 
 
+def _unit_extra(rng, i, n):
+    c = rng.randrange(9)
+    k = rng.choice(KW_POOL)
+    if c == 0:      # several defs under one top-level do (unrolled by the compiler)
+        return [f"(do (def {n} {_lit(rng)}) (def {n}-b {_lit(rng)}) (def {n}-c [{n} {n}-b]))"], []
+    if c == 1:      # load-time, namespace dependent
+        return [f"(def {n} [(name (ns-name *ns*)) (str (:ns (meta (var version-marker-probe))))])"], []
+    if c == 2:      # host literals
+        return [f'(def {n} [#py [1 :{k} "s"] #py {{"a" :{k}}} #py #{{1 2}} #queue [1 :{k}]])'], []
+    if c == 3:      # custom metadata on the Var and on the value
+        return [f'(def ^{{:doc "d{i}" :custom {{:k :{k}}} :tag python/int}} {n} ^:flag [{rng.randrange(9)}])'], []
+    if c == 4:      # case over several constant kinds
+        return [f'(defn {n} [x] (case x :{k} :kw \'sym :sym "str" :str 42 :int [:{k} 1] :vec :default))'], \
+            [(n, f":{k}"), (n, "'sym"), (n, '"str"'), (n, "42"), (n, f"[:{k} 1]"), (n, "nil")]
+    if c == 5:      # reader conditional and a set used as a fn
+        return [f"(def {n} [#?(:lpy :{k} :clj :other) (#{{:{k} :zz}} (keyword \"{k}\"))])"], []
+    if c == 6:      # keyword-argument fn and destructuring with keyword keys
+        return [f"(defn {n} [{{:keys [{k} other] :or {{other :dflt}}}}] [{k} other])"], \
+            [(n, "{:%s 1}" % k), (n, "{:%s 2 :other 3}" % k)]
+    if c == 7:      # a second required namespace
+        return [f"(def {n} (cset/union #{{:{k}}} #{{:zz {rng.randrange(5)}}}))"], []
+    return [f"(def {n} (letfn [(f# [x#] (if (pos? x#) (recur (dec x#)) :{k}))] (f# 3)))".replace("#", "")], []
+
+
 def _unit(rng, i):
     """-> (forms, calls) ; calls = list of (fn-name, args-text) the snapshot evaluates."""
     n = f"u{i}"
+    if rng.random() < 0.16:
+        return _unit_extra(rng, i, n)
     r = rng.random()
     if r < 0.28:
         return [f"(def {n} {_lit(rng)})"], []
@@ -88,7 +114,7 @@ def _unit(rng, i):
         return [f"(defmulti {n} :kind)", f"(defmethod {n} :{k1} [m] [:first (:v m)])",
                 f"(defmethod {n} :{k2} [m] [:second (:v m)])", f"(defmethod {n} :default [m] :dflt)"], \
             [(n, "{:kind :%s :v 1}" % k1), (n, "{:kind :%s :v 2}" % k2), (n, "{:kind :zzz}")]
-    if r < 0.90:
+    if r < 0.885:
         return [f'(def {n} (str/upper-case "{rng.choice(["abc", "héllo"])}"))'], []
     k = rng.choice(KW_POOL)
     c = rng.randrange(5)
@@ -115,7 +141,8 @@ def generate(rng, nsname, nunits):
 def render(desc, version):
     """Source text of `desc` at `version`: only the value of `version-marker` differs between
     versions, so an edit keeps the file size (for version < 10) unless the caller pads it."""
-    out = [f"(ns {desc['ns']} (:require [basilisp.string :as str]))"]
+    out = [f"(ns {desc['ns']} (:require [basilisp.string :as str] [basilisp.set :as cset]))",
+           "(def version-marker-probe :probe)"]
     n = 0
     for u in desc["units"]:
         out.extend(u["forms"])
